@@ -162,6 +162,14 @@ def run(run):
                 bad2 = classify(s, spec, obs2) or (('parse', 'differs-from-fresh-parser', ''), 'outcome %r differs from a fresh parser' % (obs2,))
                 run.violation(('shared-parser',) + tuple(bad2[0]), 'after %d earlier strings on the same parser object: %s' % (n - 1, bad2[1]),
                               {'string': s, 'spec': spec, 'impl': obs2, 'note': 'needs the earlier strings on the same NodePathParser object'})
+            else:
+                # ... and once more: the SAME string again on that object (a parser that remembers what it has seen - parsed
+                # paths kept by expression, a path registered before its expression was validated - answers differently now)
+                obs3 = observe(s, shared)
+                if obs3 != obs:
+                    bad3 = classify(s, spec, obs3) or (('parse', 'differs-from-fresh-parser', ''), 'outcome %r differs from a fresh parser' % (obs3,))
+                    run.violation(('shared-parser', 'repeat') + tuple(bad3[0]), 'the same string parsed a second time on one parser object: %s' % bad3[1],
+                                  {'string': s, 'spec': spec, 'impl': obs3, 'note': 'needs the same string parsed twice on one NodePathParser object'})
             if n in (200, 5000, 40000):
                 run.sample({'string': s, 'spec': spec, 'impl_ok': obs['ok']})
         if n != expected:
